@@ -1406,6 +1406,7 @@ func c13MiddlewareOrder(r *Run, pkg *packages.Package) {
 			okOrder = false
 		}
 	}
+	c13RegistrationOrder(r, pkg, fd)
 	desc := fmt.Sprintf("comparator %s, %s sort, %s wrapping", cmpOp, map[bool]string{true: "stable", false: "unstable"}[stable], dir)
 	switch {
 	case !stable:
@@ -1414,5 +1415,128 @@ func c13MiddlewareOrder(r *Run, pkg *packages.Package) {
 		r.bad(key, fd.Pos(), fmt.Sprintf("%s gives execution order %v on priorities [5 0 -1 0 1]: not ascending priority with ties in registration order", desc, exec))
 	default:
 		r.ok(key, fd.Pos(), desc+": ascending priority outermost-first, ties in registration order")
+	}
+}
+
+// c13RegistrationOrder: "ties in registration order" needs the registered list itself to be in
+// registration order: every struct field of the entry-list type that applyMiddlewares receives is only
+// ever grown at its end (f = append(f, …)) or replaced by a copy — no element store, no shifting copy,
+// no in-place sort of the field.
+func c13RegistrationOrder(r *Run, pkg *packages.Package, apply *ast.FuncDecl) {
+	info := pkg.TypesInfo
+	var listT types.Type
+	if apply.Type.Params != nil {
+		for _, f := range apply.Type.Params.List {
+			t := info.TypeOf(f.Type)
+			if sl, ok := t.Underlying().(*types.Slice); ok {
+				if st, ok := sl.Elem().Underlying().(*types.Struct); ok {
+					for i := 0; i < st.NumFields(); i++ {
+						if st.Field(i).Name() == "priority" {
+							listT = t
+						}
+					}
+				}
+			}
+		}
+	}
+	if listT == nil {
+		return
+	}
+	isListField := func(e ast.Expr) *types.Var {
+		se, ok := ast.Unparen(e).(*ast.SelectorExpr)
+		if !ok {
+			return nil
+		}
+		sel, ok := info.Selections[se]
+		if !ok || sel.Kind() != types.FieldVal || !types.Identical(sel.Obj().Type(), listT) {
+			return nil
+		}
+		return sel.Obj().(*types.Var)
+	}
+	type verdict struct {
+		bad token.Pos
+		msg string
+		pos token.Pos
+	}
+	fields := map[*types.Var]*verdict{}
+	get := func(v *types.Var, pos token.Pos) *verdict {
+		if fields[v] == nil {
+			fields[v] = &verdict{pos: pos}
+		}
+		return fields[v]
+	}
+	for _, fd := range funcDecls(pkg) {
+		ast.Inspect(fd.Body, func(n ast.Node) bool {
+			switch x := n.(type) {
+			case *ast.AssignStmt:
+				for i, l := range x.Lhs {
+					if v := isListField(l); v != nil {
+						vd := get(v, x.Pos())
+						var rhs ast.Expr
+						if len(x.Rhs) == len(x.Lhs) {
+							rhs = x.Rhs[i]
+						}
+						ok := false
+						if c, isCall := ast.Unparen(rhs).(*ast.CallExpr); isCall {
+							if id, isId := ast.Unparen(c.Fun).(*ast.Ident); isId && id.Name == "append" && len(c.Args) >= 1 {
+								// grown at the end, or a fresh copy (append([]T{}, other...))
+								if isListField(c.Args[0]) == v {
+									ok = true
+								} else if _, isLit := ast.Unparen(c.Args[0]).(*ast.CompositeLit); isLit {
+									ok = true
+								}
+							}
+						} else if rhs != nil && (exprStr(rhs) == "nil" || isListField(rhs) != nil) {
+							ok = true
+						}
+						if !ok && vd.bad == token.NoPos {
+							vd.bad, vd.msg = x.Pos(), "is assigned something other than append(itself, …) or a copy"
+						}
+					}
+					// element store f[i] = …
+					if ix, ok := ast.Unparen(l).(*ast.IndexExpr); ok {
+						if v := isListField(ix.X); v != nil {
+							vd := get(v, x.Pos())
+							if vd.bad == token.NoPos {
+								vd.bad, vd.msg = x.Pos(), "has an element stored at a computed position"
+							}
+						}
+					}
+				}
+			case *ast.CallExpr:
+				name := ""
+				if id, ok := ast.Unparen(x.Fun).(*ast.Ident); ok {
+					name = id.Name
+				}
+				if cal := calleeFunc(info, x); cal != nil && cal.Pkg() != nil && (cal.Pkg().Path() == "sort" || cal.Pkg().Path() == "slices") {
+					name = cal.Pkg().Path() + "." + cal.Name()
+				}
+				if len(x.Args) == 0 {
+					return true
+				}
+				target := x.Args[0]
+				if sl, ok := ast.Unparen(target).(*ast.SliceExpr); ok {
+					target = sl.X
+				}
+				if v := isListField(target); v != nil {
+					vd := get(v, x.Pos())
+					switch {
+					case name == "copy", strings.HasPrefix(name, "sort."), name == "slices.Sort", name == "slices.SortFunc", name == "slices.SortStableFunc", name == "slices.Insert", name == "slices.Reverse":
+						if vd.bad == token.NoPos {
+							vd.bad, vd.msg = x.Pos(), "is rearranged in place by "+name
+						}
+					}
+				}
+			}
+			return true
+		})
+	}
+	for v, vd := range fields {
+		key := "http." + v.Name() + "#registration-order"
+		if vd.bad != token.NoPos {
+			r.bad(key, vd.bad, "the registered middleware list "+v.Name()+" "+vd.msg+": entries no longer sit in registration order, so middlewares of equal priority do not run in the order they were registered")
+		} else {
+			r.ok(key, vd.pos, "the registered middleware list is only grown at its end or replaced by a copy")
+		}
 	}
 }
